@@ -18,7 +18,7 @@ def run(ctx):
                 "whole-dimension and many-interval selections); model and implementation compared after every refine(); "
                 "a case is one history, distinct by configuration + benefit script, non-trivial if at least one interval was split")
     drv = ctx.driver("drv_c06")
-    n = 70 if not thorough else 1200
+    n = 240 if not thorough else 1500
     budget = 75 if not thorough else 560
     first_break = None
     for k in range(n):
